@@ -611,7 +611,7 @@ Fixpoint hs_dtls_loop (fuel : nat) (fx : fixes) (o : orcd) (st : hsd) (b : bytes
                     else if seen_frag (fr_hdrs fr1) foff then Ok (st1, HsRet c_MATRIXSSL_SUCCESS)
                     else if lenZ (fr_hdrs fr1) >=? c_MAX_FRAGMENTS then
                       Ok (put_frag st {| fr_msg := None; fr_index := fr_index fr1; fr_total := 0; fr_stored := fr_stored fr1;
-                                         fr_msn := fr_msn fr1; fr_hdrs := [] |}, HsRet c_PS_LIMIT_FAIL)
+                                         fr_msn := fr_msn fr1; fr_hdrs := [] |}, HsErr c_SSL_ALERT_ILLEGAL_PARAMETER)   (* returns PS_LIMIT_FAIL *)
                     else if (foff + flen >? hl) || (foff + flen >? fr_stored fr1) then Ok (st1, HsErr c_SSL_ALERT_DECODE_ERROR)
                     else if fx_reasm fx && overlaps (fr_hdrs fr1) foff flen then Ok (st1, HsRet c_MATRIXSSL_SUCCESS)
                     else
@@ -798,22 +798,24 @@ Definition processed_data (dec : nat -> abuf -> Z -> dret) (rok : nat -> bool) (
   else Ok (ARet c_MATRIXSSL_SUCCESS a).
 
 (* ================================================================== (e) CBC pad / MAC layout *)
-(* sslDecode.c 889-1250 for a block cipher (deBlockSize > 1, not AEAD): given rec.len, the sizes and the
-   last plaintext byte, where the code looks.  Offsets are relative to decryptedStart (= origbuf). *)
+(* sslDecode.c 889-1250 for a block cipher (deBlockSize > 1, not AEAD): given rec.len, the sizes, the
+   last plaintext byte and whether the pad bytes [rec.len - 1 - padLen, rec.len) all carry that value, where
+   the code looks for the MAC.  Offsets are relative to decryptedStart (= origbuf). *)
 Record cbc_layout := { cl_sane : bool;        (* the length sanity test 889-915 passed *)
                        cl_mac_error : bool;
                        cl_pad_lo : Z;         (* pad bytes examined: [cl_pad_lo, rec.len) when no error *)
                        cl_mac_off : Z;        (* mac = decryptedStart + cl_mac_off *)
                        cl_data_off : Z;       (* data given to verifyMac starts here (after the explicit IV) *)
                        cl_data_len : Z }.
-Definition cbc_mac_layout (rec_len mac_size block_size pad_len : Z) (explicit_iv ssl3 : bool) : cbc_layout :=
+Definition cbc_mac_layout (rec_len mac_size block_size pad_len : Z) (explicit_iv ssl3 pads_equal : bool) : cbc_layout :=
   let min_len := if explicit_iv then mac_size + 1 + block_size else mac_size + 1 in
   if rec_len <? min_len then
     {| cl_sane := false; cl_mac_error := true; cl_pad_lo := 0; cl_mac_off := 0; cl_data_off := 0; cl_data_len := 0 |}
   else
     let err1 := ssl3 && (pad_len >=? block_size) in
     let err2 := if explicit_iv then rec_len <? mac_size + pad_len + 1 + block_size else rec_len <? mac_size + pad_len + 1 in
-    let err := err1 || err2 in
+    (* TLS: all pad bytes must equal the pad length (looked at only when the lengths are consistent) *)
+    let err := err1 || err2 || (negb ssl3 && negb pads_equal) in
     let data_off := if explicit_iv then block_size else 0 in
     let mac_off := if err then rec_len - mac_size else rec_len - pad_len - 1 - mac_size in
     {| cl_sane := true; cl_mac_error := err; cl_pad_lo := (if err then rec_len else rec_len - pad_len - 1);
